@@ -25,7 +25,17 @@ def fake_open(path, *a, **k):
     return u
 
 
+class _Table:
+    formatType = 2.0
+
+
 class _VF:
+    def __init__(self):
+        self.tables = {}
+
+    def __getitem__(self, tag):
+        return self.tables.setdefault(tag, _Table())
+
     def save(self, path):
         pass
 
